@@ -301,14 +301,15 @@ structure StaticAt (W : World) (st : StaticSound ℝ) (j : Nat) : Prop extends S
   transport : st.transport = W.trAt j
   resampler : st.resampler = W.resAt j
 
-theorem StaticIn.sliceOk {W : World} {st : StaticSound ℝ} (h : StaticIn W st) (hW : W.Ok) : st.SliceOk := by
-  unfold SliceOk; rw [h.slice, h.frames]; exact hW.slice_ok
-
-theorem StaticIn.nFrames {W : World} {st : StaticSound ℝ} (h : StaticIn W st) : st.nFrames = W.n := by
+theorem StaticIn.nFrames {W : World} {st : StaticSound ℝ} (h : StaticIn W st) (hW : W.Ok) : st.nFrames = W.n := by
+  have hs := hW.slice_ok
   unfold StaticSound.nFrames World.n; rw [h.slice, h.frames]
-  cases W.slice with
+  cases hsl : W.slice with
   | none => rfl
-  | some ab => cases ab; rfl
+  | some ab =>
+    obtain ⟨a, b⟩ := ab
+    simp only [hsl] at hs ⊢
+    omega
 
 theorem StaticIn.sliceStart {W : World} {st : StaticSound ℝ} (h : StaticIn W st) : st.sliceStart = W.start := by
   unfold StaticSound.sliceStart World.start; rw [h.slice]
@@ -319,14 +320,13 @@ theorem StaticIn.sliceStart {W : World} {st : StaticSound ℝ} (h : StaticIn W s
 /-- what a lookup at play-head position `p` pushes -/
 theorem static_lookup {W : World} {st : StaticSound ℝ} (h : StaticIn W st) (hW : W.Ok) (p : Nat) :
     ∃ fo, frameAtIndex p st.frames st.slice = .ok fo ∧ fo.getD Frame.zero = W.srcAt p := by
-  have hs := h.sliceOk hW
   unfold World.srcAt
   by_cases hp : p < W.n
-  · obtain ⟨f, hf, hg, _⟩ := (frameAtIndex_ok st hs p).1 (by rw [h.nFrames]; exact hp)
+  · obtain ⟨f, hf, hg, _⟩ := (frameAtIndex_ok st p).1 (by rw [h.nFrames hW]; exact hp)
     refine ⟨some f, hf, ?_⟩
     rw [h.sliceStart, h.frames] at hg
     simp [hp, hg]
-  · have := (frameAtIndex_ok st hs p).2 (by rw [h.nFrames]; omega)
+  · have := (frameAtIndex_ok st p).2 (by rw [h.nFrames hW]; omega)
     exact ⟨none, this, by simp [hp]⟩
 
 /-- **one position update of the static sound along the walk** (forwards: playback rate not negative) -/
@@ -334,7 +334,6 @@ theorem static_update {W : World} (hW : W.Ok) {st : StaticSound ℝ} {j : Nat} (
     (hr : signNeg st.playbackRate.value = false) :
     st.updatePosition = .ok { st with transport := W.trAt (j + 1), resampler := W.resAt (j + 1),
                                        core := if W.staticStops (j + 1) then st.core.markStopped else st.core } := by
-  have hs := h.toStaticIn.sliceOk hW
   have hbw : ∀ r : Resampler ℝ, isPlayingBackwards { st with resampler := r } = false := by
     intro r; simp [isPlayingBackwards, h.reverse, hr]
   have hmove : ∀ r : Resampler ℝ, moveTransport { st with resampler := r } = .ok (W.trAt (j + 1)) := by
@@ -343,7 +342,7 @@ theorem static_update {W : World} (hW : W.Ok) {st : StaticSound ℝ} {j : Nat} (
     rw [hbw r]
     simp only [Bool.false_eq_true, if_false]
     have : numFrames st.frames.size st.slice = .ok W.n := by
-      rw [numFrames_ok st hs, h.toStaticIn.nFrames]
+      rw [numFrames_ok st, h.toStaticIn.nFrames hW]
     simp only [this]
     show st.transport.increment W.n = _
     rw [h.transport]; exact W.trAt_step hW j
@@ -1334,7 +1333,8 @@ theorem new_bisim {σ : Type} {D : Decoder σ ℝ} {pos : σ → Nat} {good : σ
     | some ab =>
       obtain ⟨x, y⟩ := ab
       rw [hsl] at hs
-      simp [hWdef, worldOf, hsl, hs.1]
+      have : min y d.frames.size - x = y - x := by omega
+      simp [hWdef, worldOf, hsl, this]
   have hWn : W.n = (match d.slice with | some (a, b) => b - a | none => d.frames.size) := rfl
   -- the static sound
   obtain ⟨s0, hinit, hs0⟩ : ∃ s0, init d = .ok s0 ∧ s0 = ({ cmds := {}, sampleRate := d.sampleRate, frames := d.frames, slice := d.slice, reverse := d.settings.reverse, core := SoundCore.new d.settings.startTime d.settings.fadeInTween, resampler := Resampler.new W.t0.position, transport := W.t0, frac := (0.0 : ℝ), volume := Parameter.new d.settings.volume Psm.identityDb, playbackRate := Parameter.new d.settings.playbackRate (1.0 : ℝ), panning := Parameter.new d.settings.panning (0.0 : ℝ), sharedPosition := (KOps.ofNat W.t0.position : ℝ) / (KOps.ofNat d.sampleRate : ℝ) } : StaticSound ℝ) := by
